@@ -799,7 +799,8 @@ def code_specific_cases(rng, budget, T):
             for seqs in seqsets[: 2 + (budget > 1)]:
                 entries = ["new.SequenceCollection"] + (["old.SequenceCollection", "old.ArrayAlignment", "old.Alignment", "app.translate_seqs"] if code in ids_old else [])
                 for entry in entries:
-                    for io, is_, ts in ((False, False, True), (True, False, True), (False, True, False), (False, False, False), (False, True, True)):
+                    opts = ((False, False, True), (True, False, True), (False, True, False), (False, False, False), (False, True, True))
+                    for io, is_, ts in (opts if budget > 1 else opts[:1] + opts[2:4]):
                         if entry == "app.translate_seqs" and (io or is_):
                             continue
                         yield dict(kind="coll.get_translation", entry=entry, code=code, seqs=seqs, incomplete_ok=io, include_stop=is_, trim_stop=ts,
@@ -811,6 +812,28 @@ def code_specific_cases(rng, budget, T):
                     yield dict(kind="seq.stop_api", impl=impl, code=code, s=seqs[0], strict=False, moltype="dna")
 
 
+def double_stop_cases(rng, budget, T):
+    """rows ending in two stop codons (a terminal stop preceded by an internal one), every collection class"""
+    cs_of = {r[0]: r[2] for r in T["new_codes"]}
+    ids_old = sorted(r[0] for r in T["old_codes"])
+    for _ in range(6 * budget):
+        code = rng.choice(ids_old)
+        tbl = table(cs_of[code])
+        stops = [c for c, a in tbl.items() if a == "*"]
+        sense = [c for c, a in tbl.items() if a != "*"]
+        if not stops:
+            continue
+        rows = ["".join(rng.choice(sense) for _ in range(2)) + rng.choice(stops) + rng.choice(stops),
+                "".join(rng.choice(sense) for _ in range(4))]
+        for entry in ("old.SequenceCollection", "old.ArrayAlignment", "old.Alignment", "new.SequenceCollection", "app.translate_seqs"):
+            for io, is_, ts in ((False, False, True), (True, False, True), (False, True, False)):
+                if entry == "app.translate_seqs" and (io or is_):
+                    continue
+                yield dict(kind="coll.get_translation", entry=entry, code=code, seqs=rows, incomplete_ok=io, include_stop=is_, trim_stop=ts, moltype="dna")
+        for impl in ("old", "new"):
+            yield dict(kind="seq.get_translation", impl=impl, code=code, s=rows[0], incomplete_ok=False, include_stop=False, trim_stop=True, moltype="dna", via_rc=False)
+
+
 def view_cases(rng, budget, T):
     ids = [r[0] for r in T["old_codes"] if r[0] in {x[0] for x in T["new_codes"]}]
     for impl, sources in (("old", OLD_SOURCES), ("new", NEW_SOURCES)):
@@ -818,7 +841,7 @@ def view_cases(rng, budget, T):
             u = "U" if mt == "rna" else "T"
             base = "ACG" + u
             for source in sources:
-                for _ in range(6 * budget):
+                for _ in range(4 * budget):
                     n = rng.randint(4, 24)
                     r = rng.random()
                     alpha = base if r < 0.55 else base * 3 + "RYWSKMBDHVN" if r < 0.8 else base * 3 + "-N"
@@ -874,6 +897,7 @@ def _gapped_seq(rng, tbl, ncod, kinds):
 
 def cases(rng, budget, T):
     yield from code_specific_cases(rng, budget, T)
+    yield from double_stop_cases(rng, budget, T)
     yield from view_cases(rng, budget, T)
     ids_new = [r[0] for r in T["new_codes"]]
     ids_old = [r[0] for r in T["old_codes"]]
